@@ -380,6 +380,19 @@ class Repo:
             raise AnalysisError('anchor vanished: function %s:%s' % (mod, qual))
         return self._with_new_helpers_inlined(m.functions[qual])
 
+    def functions_view(self, mod):
+        """the functions of a module as the per-function rules read them: every function with the helpers the pinned tree does not have inlined, and without those
+        helpers themselves once they have been read in place somewhere (their statements are then attributed to the function that calls them - where the tables of
+        reviewed sites expect them)"""
+        m = self.module(mod)
+        fs = list(m.functions.values())
+        views = [self._with_new_helpers_inlined(f) for f in fs]
+        try:
+            from .expr import INLINED_HELPERS
+        except Exception:
+            INLINED_HELPERS = set()
+        return [v for f, v in zip(fs, views) if id(f.node) not in INLINED_HELPERS]
+
     # ---- helpers that the pinned tree does not have are read in place
     _PINNED = None
 
